@@ -1,0 +1,116 @@
+//go:build verif
+
+package textinput
+
+/*@
+-- ------------------------------------------------------------------ textinput.Model (C17)
+-- The content is a slice of grapheme clusters; the ideal editor is stated directly over that slice.
+-- Key.String() names the key; it is a fixed function of the key (ASSUMED here; its agreement with the key tables is C09's subject)
+ufun keyName(k vaxis.Key) string
+extern attr (git.sr.ht/~rockorager/vaxis.Key).String = keyName
+
+-- slices.Insert(s, i, vs...) : s[:i] + vs + s[i:] (ASSUMED, golang.org/x/exp/slices)
+extern func golang.org/x/exp/slices.Insert(s, i, vs)
+  requires 0 <= i && i <= len(s)
+  ensures len(result) == len(s) + len(vs)
+  ensures forall k in 0..i: result[k] == old(s[k])
+  ensures forall k in i..i + len(vs): result[k] == old(vs[k - i])
+  ensures forall k in i + len(vs)..len(result): result[k] == old(s[k - len(vs)])
+
+pred Graphemes(m *Model) = forall i in 0..len(m.content): len(m.content[i].Grapheme) > 0
+pred MInv(m *Model) = 0 <= m.cursor && m.cursor <= len(m.content) && Graphemes(m)
+
+func isAlphaNumeric(c vaxis.Character) bool
+  requires len(c.Grapheme) > 0
+  modifies nothing
+
+func (m *Model) CursorPosition() int
+  ensures result == m.cursor
+
+func widthToCursor(chars []vaxis.Character, cursor int, offset int) int
+  modifies nothing
+@*/
+
+/*@
+pred IsKeyEv(msg vaxis.Event) = typeis(msg, "vaxis.Key") && unbox(msg, "vaxis.Key").EventType != vaxis.EventRelease && unbox(msg, "vaxis.Key").EventType != vaxis.EventPaste
+pred KeyIs(msg vaxis.Event, name string) = IsKeyEv(msg) && keyName(unbox(msg, "vaxis.Key")) == name
+pred SameText(m *Model) = len(m.content) == old(len(m.content)) && (forall i in 0..len(m.content): m.content[i] == old(m.content[i]))
+
+func (m *Model) Update(msg vaxis.Event)
+  requires inv: MInv(m)
+  ensures C17_inv: MInv(m)
+  -- cursor motions move by whole graphemes and stop at the ends; they never change the text
+  ensures C17_home:  (KeyIs(msg, "Ctrl+a") || KeyIs(msg, "Home")) ==> (m.cursor == 0 && SameText(m))
+  ensures C17_end:   (KeyIs(msg, "Ctrl+e") || KeyIs(msg, "End")) ==> (m.cursor == len(m.content) && SameText(m))
+  ensures C17_right: (KeyIs(msg, "Ctrl+f") || KeyIs(msg, "Right")) ==> (m.cursor == min(old(m.cursor) + 1, len(m.content)) && SameText(m))
+  ensures C17_left:  (KeyIs(msg, "Ctrl+b") || KeyIs(msg, "Left")) ==> (m.cursor == max(old(m.cursor) - 1, 0) && SameText(m))
+  -- deletions remove exactly the addressed graphemes
+  ensures C17_del: (KeyIs(msg, "Ctrl+d") || KeyIs(msg, "Delete")) ==>
+        (m.cursor == old(m.cursor)
+         && (old(m.cursor) == old(len(m.content)) ? SameText(m)
+             : (len(m.content) == old(len(m.content)) - 1
+                && (forall i in 0..m.cursor: m.content[i] == old(m.content[i]))
+                && (forall i in m.cursor..len(m.content): m.content[i] == old(m.content[i + 1])))))
+  ensures C17_bs: (KeyIs(msg, "Ctrl+h") || KeyIs(msg, "BackSpace")) ==>
+        (old(m.cursor) == 0 ? (m.cursor == 0 && SameText(m))
+         : (m.cursor == old(m.cursor) - 1 && len(m.content) == old(len(m.content)) - 1
+            && (forall i in 0..m.cursor: m.content[i] == old(m.content[i]))
+            && (forall i in m.cursor..len(m.content): m.content[i] == old(m.content[i + 1]))))
+  ensures C17_kill: KeyIs(msg, "Ctrl+k") ==>
+        (m.cursor == old(m.cursor) && len(m.content) == old(m.cursor) && (forall i in 0..len(m.content): m.content[i] == old(m.content[i])))
+  ensures C17_killhead: KeyIs(msg, "Ctrl+u") ==>
+        (m.cursor == 0 && len(m.content) == old(len(m.content)) - old(m.cursor) && (forall i in 0..len(m.content): m.content[i] == old(m.content[i + old(m.cursor)])))
+  -- Alt+f / Ctrl+Right: the two forward scans keep the scan index on the cursor
+  loop 1 invariant scan: i == m.cursor && 0 <= m.cursor && m.cursor <= len(m.content) && Graphemes(m) && SameText(m)
+  loop 2 invariant scan: i == m.cursor && 0 <= m.cursor && m.cursor <= len(m.content) && Graphemes(m) && SameText(m)
+  -- Alt+b / Ctrl+Left: backward scans, the cursor may sit at -1 before the final clamp
+  loop 3 invariant scan: i == m.cursor && -1 <= m.cursor && m.cursor < len(m.content) && Graphemes(m) && SameText(m)
+  loop 4 invariant scan: i == m.cursor && -1 <= m.cursor && m.cursor < len(m.content) && Graphemes(m) && SameText(m)
+  -- Ctrl+w: the scan index is one left of the cursor
+  loop 5 invariant scan: i == m.cursor - 1 && 0 <= m.cursor && m.cursor <= originalCursor && originalCursor == old(m.cursor) && Graphemes(m) && SameText(m)
+  loop 6 invariant scan: i == m.cursor - 1 && 0 <= m.cursor && m.cursor <= originalCursor && originalCursor == old(m.cursor) && Graphemes(m) && SameText(m)
+  -- typed text: one cluster at a time at the cursor
+  loop 7 invariant ins: -1 <= rangeindex && rangeindex < len(chars) && m.cursor == old(m.cursor) + rangeindex + 1 && len(m.content) == old(len(m.content)) + rangeindex + 1
+                      && Graphemes(m) && (forall k in 0..len(chars): len(chars[k].Grapheme) > 0)
+                      && (forall k in 0..old(m.cursor): m.content[k] == old(m.content[k]))
+                      && (forall k in old(m.cursor)..m.cursor: m.content[k] == chars[k - old(m.cursor)])
+                      && (forall k in m.cursor..len(m.content): m.content[k] == old(m.content[k - rangeindex - 1]))
+@*/
+
+/*@
+-- display width of the first k clusters
+rec wsum(cs []vaxis.Character, k int) int = (k <= 0) ? 0 : wsum(cs, k - 1) + cs[k-1].Width
+
+-- Draw: terminates for every window width (the scroll loop stops at the cursor), keeps the editor state, and --
+-- while nothing is scrolled and every prefix of prompt+content fits -- shows the cursor at the display width of
+-- the prompt plus the text before the cursor
+func (m *Model) Draw(win vaxis.Window)
+  requires inv: MInv(m)
+  requires ok: WinOK(win)
+  requires vx: win.Vx != nil && ref(win.Vx.charCache) != 0
+  unfold wsum
+  ensures C17_inv: MInv(m) && SameText(m) && m.cursor == old(m.cursor)
+  loop 1 invariant prompt: -1 <= rangeindex && rangeindex < len(m.prompt) && col == wsum(m.prompt, rangeindex + 1) && MInv(m) && SameText(m) && m.cursor == old(m.cursor) && m.offset == old(m.offset) && WinOK(win)
+  loop 2 invariant scroll: MInv(m) && SameText(m) && m.cursor == old(m.cursor) && m.offset >= old(m.offset) && col == wsum(m.prompt, len(m.prompt)) && WinOK(win)
+  loop 2 decreases m.cursor - m.offset
+  loop 3 invariant text: -1 <= rangeindex && rangeindex < len(m.content) && MInv(m) && SameText(m) && m.cursor == old(m.cursor) && m.offset >= 0 && WinOK(win)
+                       && (m.offset == 0 ==> (col == wsum(m.prompt, len(m.prompt)) + wsum(m.content, rangeindex + 1)
+                           && cursor == wsum(m.prompt, len(m.prompt)) + ((m.cursor >= 1 && m.cursor <= rangeindex + 1) ? wsum(m.content, m.cursor) : 0)))
+  exit 3 assert C17_col: (m.offset == 0 && (forall k in 0..len(m.content) + 1: wsum(m.prompt, len(m.prompt)) + wsum(m.content, k) < winW))
+        ==> cursor == wsum(m.prompt, len(m.prompt)) + wsum(m.content, m.cursor)
+@*/
+
+/*@
+-- programmatic edits
+func (m *Model) SetContent(s string) *Model
+  ensures C17_inv: MInv(m) && m.cursor == len(m.content) && result == m
+
+func (m *Model) SetPrompt(s string) *Model
+  ensures result == m && m.cursor == old(m.cursor) && len(m.content) == old(len(m.content))
+
+func (m *Model) Characters() []vaxis.Character
+  ensures result == m.content
+
+func New() *Model
+  ensures C17_inv: result != nil && MInv(result) && len(result.content) == 0
+@*/
